@@ -59,6 +59,7 @@ static inline size_t priorLen(int prior, size_t len, size_t maxLen)
     {
         case 1: return len / 2;
         case 2: return std::min(maxLen, len + 7);
+        case 7: return std::min<size_t>(maxLen, std::max<size_t>(255, 4 * len + 600));   // MUCH longer: more than twice the new size (a shrink-to-fit path)
         default: return len;
     }
 }
@@ -137,12 +138,12 @@ static void canLike(W& w, const char* cls, uint8_t pt, uint32_t fullType, int pr
     if (held)
         holder.setPayload(own);
     T& p = held ? static_cast<T&>(holder.getPayload()) : own;
-    if (prior && prior < 4)
+    if (prior && (prior < 4 || prior == 7))
     {
         Bytes pd = pat(priorLen(prior, len, 255), 7);
         p.setData(pd.data(), (uint8_t) pd.size());
     }
-    if (prior >= 4)
+    if (prior >= 4 && prior != 7)
         p = fromImageWithTrail<T>(hdr, prior == 4 ? len : len / 2);
     if (look)
     {
@@ -227,12 +228,12 @@ static inline void lin(W& w, int prior, size_t len, int hv = 0)
     if (held)
         holder.setPayload(own);
     T& p = held ? static_cast<T&>(holder.getPayload()) : own;
-    if (prior && prior < 4)
+    if (prior && (prior < 4 || prior == 7))
     {
         Bytes pd = pat(priorLen(prior, len, 255), 7);
         p.setData(pd.data(), (uint8_t) pd.size());
     }
-    if (prior >= 4)
+    if (prior >= 4 && prior != 7)
         p = fromImageWithTrail<T>(hdr, prior == 4 ? len : len / 2);
     if (look)
     {
@@ -281,12 +282,12 @@ static inline void eth(W& w, int prior, size_t len)
     if (held)
         holder.setPayload(own);
     T& p = held ? static_cast<T&>(holder.getPayload()) : own;
-    if (prior && prior < 4)
+    if (prior && (prior < 4 || prior == 7))
     {
         Bytes pd = pat(priorLen(prior, len, 65529), 7);
         p.setData(pd.data(), (uint16_t) pd.size());
     }
-    if (prior >= 4)
+    if (prior >= 4 && prior != 7)
         p = fromImageWithTrail<T>([](T& q) { q.setFlags(0x00C4); }, prior == 4 ? len : len / 2);
     if (look)
     {
@@ -688,7 +689,7 @@ static int runC13(mc::Run& run, const mc::Options& opt)
         return run.run_single(cs);
     }
     std::vector<std::string> cases;
-    for (int prior : {0, 1, 2, 3, 11, 12, 13, 20, 21, 22, 33, 41, 42, 52, 62})
+    for (int prior : {0, 1, 2, 3, 7, 11, 12, 13, 17, 20, 21, 22, 27, 33, 41, 42, 52, 62})
     {
         if (prior >= 40)
         {
